@@ -99,26 +99,25 @@ def evaluate(prog, g, cfg, tr, r):
         diff = sorted(set(tr['final'].items()) ^ set(final.items()))[:4]
         fails.append('final collection differs from a sequential execution: (tile, value) differences %s' % diff)
     r['fails'] += fails
-    r['stats'] = {'events': len(tr['events']), 'again_events': sum(1 for e in tr['events'] if e[0] == 'A'),
-                  'tiles_changed': len(tr['final'] or {}), 'values_compared': sum(len(e[4]) for e in tr['events'])}
+    r['stats'].update({'events': len(tr['events']), 'again_events': sum(1 for e in tr['events'] if e[0] == 'A'),
+                  'tiles_changed': len(tr['final'] or {}), 'values_compared': sum(len(e[4]) for e in tr['events'])})
 
 
 def run(ctx, res, cases=None):
     rng = pv.Rng(ctx.seed)
     corpus = pvptgrt.load_corpus(PROP)
     if cases is None:
-        progs = corpus + pvptgrt.shared_programs(ctx.seed, 8 if ctx.quick else 30)
+        progs = corpus + pvptgrt.shared_programs(ctx.seed, 8 if ctx.quick else 20)
         forced = None
     else:
         progs = [c[0] for c in cases]
         forced = {c[0].name: (c[1], c[2]) for c in cases}
     items, stats = pvptgrt.prepare(ctx, res, PROP, progs, ctx.quick)
-    ncfg = 5 if ctx.quick else 24
+    ncfg = 5 if ctx.quick else 6
     groups = []
     for k, (p, g, b, exe) in enumerate(items):
         cfgs = configs(ctx, rng.fork(k), ncfg)
-        if ctx.quick:
-            cfgs = cfgs[:3] if b == pvptg.BACKENDS[0] else cfgs[3:5]
+        cfgs = (cfgs[:3] if b == pvptg.BACKENDS[0] else cfgs[3:5]) if ctx.quick else (cfgs[:4] if b == pvptg.BACKENDS[0] else cfgs[4:6])
         if forced and forced.get(p.name, (None, None))[0]:
             fc, fb = forced[p.name]
             if fb and fb != b:
